@@ -6,6 +6,7 @@ import CCV.Lemmas.Pivot
 import CCV.Lemmas.Mask
 import CCV.Lemmas.MaskRev
 import CCV.Lemmas.MaskTy
+import CCV.Lemmas.Shuffle
 import Mathlib.Algebra.Group.Prod
 /-
   C03 — a party's view reveals nothing beyond its own inputs and outputs.
@@ -481,6 +482,74 @@ example : SemOK twoTypes (fun _ args => ((0 : Int), (args.getD 0 0).1)) (fun _ =
 example : tyOk [⟨.hid 0, []⟩, ⟨.tapeU 0, []⟩, ⟨.add, [0, 1]⟩] [1, 0, 1] [0] [(2, 0)] = false := by decide
 
 end typed
+
+/- ------------------------------------------------------------------------------------------------
+   Part (v): the OPENED PERMUTATIONS of the sorting protocol (non-commutative masks).
+   `RadixSortMPC` opens `σ ∘ π` to all parties, once per radix round and once at the end, π a fresh
+   secret-shared random permutation each time.  In any group: if every opened value is `b · t` with a
+   pivot `t` that `b` and all earlier openings are independent of, the joint distribution of all the
+   openings does not depend on the secrets.  The per-configuration obligations
+   CCV/Generated/C03Sort*.lean state `freshOk skeleton cert = true` for the protocol graph
+   `RadixSortMPC::instantiate` builds NOW.
+   ------------------------------------------------------------------------------------------------ -/
+section shuffle
+open CCV.Shuffle
+variable {G X : Type} [Group G]
+
+/-- the tape with the pivot coordinates blanked -/
+def offPivotsMul (msgs : List (PivotMul.Msg X G)) (ρ : Nat → G) : Nat → G :=
+  fun v => if ∃ m ∈ msgs, v = m.piv then 1 else ρ v
+
+theorem offPivotsMul_congr (msgs : List (PivotMul.Msg X G)) (ρ ρ' : Nat → G)
+    (h : ∀ v, (∀ m ∈ msgs, v ≠ m.piv) → ρ' v = ρ v) : offPivotsMul msgs ρ' = offPivotsMul msgs ρ := by
+  funext v
+  unfold offPivotsMul
+  by_cases hv : ∃ m ∈ msgs, v = m.piv
+  · simp [hv]
+  · simp only [hv, if_false]
+    exact h v (fun m hm e => hv ⟨m, hm, e⟩)
+
+/-- **Soundness of the discipline in an arbitrary group** (right-multiplicative masks): identical
+    distributions of all opened values (and of every non-pivot tape coordinate) for any two secrets. -/
+theorem mul_discipline_hides (msgs : List (PivotMul.Msg X G)) (h : PivotMul.Disc msgs) :
+    Hides (fun (x : X) (ρ : Nat → G) => (msgs.map (fun m => m.f x ρ), offPivotsMul msgs ρ))
+      (fun _ => ()) := by
+  intro x x' _
+  obtain ⟨σ, τ, S⟩ := PivotMul.exists_sim msgs h x x'
+  refine ⟨σ, ⟨Function.LeftInverse.injective S.left, Function.RightInverse.surjective S.right⟩, ?_⟩
+  intro ρ
+  refine Prod.ext ?_ ?_
+  · exact List.map_congr_left (fun m hm => S.align ρ m hm)
+  · exact (offPivotsMul_congr msgs ρ (σ ρ) (fun v hv => S.fixσ ρ v hv)).symm
+
+/-- **Soundness of the checked sort skeleton.**  For an exported protocol graph `g` (any semantics of
+    the sub-protocols, values in any group): if `freshOk` accepts — every `shuffle_and_reveal` node of
+    the graph is certified, its mask is a fresh shared permutation that neither the shuffled value nor
+    any earlier opening depends on — then all opened values together are identically distributed for
+    all values of the protocol's inputs. -/
+theorem checked_sort_skeleton_hides (sem : Nat → List G → G) (g : List Shuffle.Node) (cert : Shuffle.Cert)
+    (h : freshOk g cert = true) :
+    Hides (fun (x : Nat → G) (ρ : Nat → G) =>
+        ((cert.map (Shuffle.toMsg sem g)).map (fun m => m.f x ρ),
+         offPivotsMul (cert.map (Shuffle.toMsg sem g)) ρ))
+      (fun _ => ()) :=
+  mul_discipline_hides _ (freshOk_disc sem g cert h)
+
+/-- non-vacuity: two radix rounds.  0: σ₀ (secret), 1: π₀, 2: open σ₀∘π₀, 3: σ₁ = f(opening, π₀)
+    (`unshuffle` uses the OLD mask), 4: π₁, 5: open σ₁∘π₁.  Accepted. -/
+example : freshOk [⟨.hid 0, []⟩, ⟨.mask 0, []⟩, ⟨.mul, [0, 1]⟩, ⟨.op 0, [2, 1]⟩, ⟨.mask 1, []⟩, ⟨.mul, [3, 4]⟩]
+    [(5, 1), (2, 0)] = true := by decide
+
+/-- the hoisted shuffle (one π for both rounds) is rejected -/
+example : freshOk [⟨.hid 0, []⟩, ⟨.mask 0, []⟩, ⟨.mul, [0, 1]⟩, ⟨.op 0, [2, 1]⟩, ⟨.mul, [3, 1]⟩]
+    [(4, 0), (2, 0)] = false := by decide
+
+/-- … and it does leak: in the symmetric group on 3 letters (here: any group with a non-trivial
+    element), the quotient of the two openings `(s₁·t)·(s₀·t)⁻¹ = s₁·s₀⁻¹` does not depend on the tape -/
+example (s0 s1 t : G) : (s1 * t) * (s0 * t)⁻¹ = s1 * s0⁻¹ := by
+  rw [mul_inv_rev, mul_assoc, mul_inv_cancel_left]
+
+end shuffle
 
 /-- non-vacuity: over ℤ/2 (bits) the input-sharing view of x = 0 and x = 1 has, for each value,
     exactly one tape producing it -/
